@@ -5,7 +5,7 @@ from faultcommon import *
 def main(tier, replay):
     c = Check('C12', 'model_checking', tier)
     quick = tier == 'quick'
-    P = {k: v for k, v in c01.core_programs().items() if k.startswith('flat_') or k in ('p4', 'p5')}
+    P = {k: v for k, v in c01.core_programs().items() if k.startswith('flat_') or k in ('p4', 'p5', 'repopt')}
     mod, infos = setup_programs(c, P, TEMPLATES)
     if replay:
         replay_main(c, replay, infos, NATIVE)
@@ -37,6 +37,9 @@ def main(tier, replay):
         if not quick:
             J('%s-3f-lists2' % t, n, [0, 3, 2, 2, 1, 9, 1, 0, 0, 0])
             J('%s-2n' % t, n, [2, 0, 0, 2, 1, 9, 1, 0, 0, 0])
+    # optional numeric leaves under a repeated group: one record contributes several null entries
+    J('repopt-1n-lists3', 'repopt', [1, 0, 0, 3, 1, 9, 1, 0, 0, 0])
+    J('repopt-1n1f', 'repopt', [1, 1, -1, 2, 1, 9, 1, 1, 0, 0])
     J('p4-1n1f', 'p4', [1, 1, -1, 2, 2, 9, 1, 0, 0, 0])
     J('p5-2f', 'p5', [0, 2, 2, 1, 1, 9, 1, 1, 0, 0])
     J('sens-nulls', 'flat_int32', [0, 2, 0, 1, 1, 9, 1, 0, 0, 1], expect='null_count')
